@@ -117,7 +117,7 @@ impl BatchMaker {
         let message = MempoolMessage::Batch(batch);
         let serialized = bincode::serialize(&message).expect("Failed to serialize our own batch");
         #[cfg(hotstuff_verif)]
-        network::simnet::emit(format!("\"ev\":\"Seal\",\"ntx\":{},\"len\":{}", match &message { MempoolMessage::Batch(b) => b.len(), _ => 0 }, serialized.len()));
+        network::simnet::emit(format!("\"ev\":\"Seal\",\"ntx\":{},\"len\":{},\"digest\":\"{}\"", match &message { MempoolMessage::Batch(b) => b.len(), _ => 0 }, serialized.len(), network::simnet::hex(&<ed25519_dalek::Sha512 as ed25519_dalek::Digest>::digest(&serialized)[..32])));
 
         #[cfg(feature = "benchmark")]
         {
